@@ -33,6 +33,8 @@ package gpusharing
 //@ end
 //@ func strconv.Itoa
 //@   props C11
+//@   trusted
+//@   note library function (no body in the loaded program): deterministic function of its argument
 //@   pure
 //@   ensures result == gpusharingconfigmap.itoa(arg0)
 //@ end
